@@ -61,9 +61,12 @@ def differential(eng, rep, topo, n, steps, mode):
                 run_schedule(pipe, None, steps, p_timeout=0.0, quiet=300, faults=faults)
                 # what each consumer got from its SYNCHRONIZED sources (a consumer may also have ephemeral sources of its own)
                 syncpubs = {f: {s_['pub'] for s_ in sync.filters[f]['srcs']} for f in sync.names}
+                # topics a consumer gets through a '?' attachment to a publisher it is also synchronized with
+                ephtopics = {f: {y for s_ in topo.filters[f]['srcs'] if s_['eph'] and s_['pub'] in syncpubs[f] for _, y in s_['tmap']}
+                             for f in sync.names}
                 res.append((pipe, {g: pub_times(tp, pipe, g) for g in sync.names if tp.filters[g]['nout']},
                             {f: [x for x in ((r['id'], {t: v for t, v in r['frames'].items()
-                                                        if observers.publisher_of_token(topo, v) in syncpubs[f]})
+                                                        if observers.publisher_of_token(topo, v) in syncpubs[f] and t not in ephtopics[f]})
                                              for r in pipe.delivered[f]) if x[1]]
                              for f in sync.names if sync.filters[f]['srcs']}))
             except BaseException:
@@ -105,6 +108,7 @@ def scenarios(quick):
     T = topos
     return dict(
         mc=[(T.eph_side(maxseq=1), 'SpecZL', {}, {}),
+            (T.dual_attach(maxseq=2), 'SpecZL', {}, {}),
             (T.tee_rejoin_eph(maxseq=1), 'SpecZL', dict(lq=8), {})] +
            ([] if quick else [
                (topos.with_required(T.eph_side(maxseq=1)), 'SpecZL', {}, dict(max_faults=1, fault_kinds=['stall', 'kill'], victims=['E', 'W'], check_c03=True)),
@@ -116,7 +120,9 @@ def scenarios(quick):
               (T.eph_side(maxseq=2), 'Spec', 6 if quick else 60, 250, {}),
               (T.eph_multi(maxseq=2), 'SpecPrompt', 8 if quick else 80, 250, {}),
               (T.eph_first(maxseq=2), 'SpecPrompt', 6 if quick else 60, 250, {}),
-              (T.balance2_eph(maxseq=3), 'SpecPrompt', 6 if quick else 60, 300, {})],
+              (T.balance2_eph(maxseq=3), 'SpecPrompt', 6 if quick else 60, 300, {}),
+              # one consumer attached to the same publisher twice: synchronized and as a '?' listener
+              (T.dual_attach(maxseq=3), 'SpecPrompt', 6 if quick else 60, 250, {})],
         rand=[(T.eph_side(maxseq=4), 8 if quick else 150, 800, 0.05, 0.03),
               (T.tee_rejoin_eph(maxseq=4), 8 if quick else 150, 1200, 0.03, 0.0),
               (T.balance2_watch(maxseq=4), 6 if quick else 100, 1000, 0.03, 0.0),
@@ -133,6 +139,8 @@ def scenarios(quick):
               (T.balance2_eph(maxseq=40, w_ms=(400, 100)), 3 if quick else 40, 12000, 'late'),
               # a consumer that lists an ephemeral source before its synchronized one
               (topos.with_required(T.eph_first(maxseq=40, slowK=True)), 3 if quick else 40, 12000, 'run'),
+              # a slow consumer that is attached to its publisher twice (synchronized for one topic, '?' for another)
+              (topos.with_required(T.dual_attach(maxseq=40, slowK=True)), 2 if quick else 30, 12000, 'run'),
               # the same with the listener attached from the very start (before the slow worker has registered): known finding
               (balance2_eph_first(maxseq=10), 2 if quick else 10, 4000, 'run')],
     )
